@@ -24,6 +24,7 @@ import (
 	"github.com/influxdata/influxdb/v2/task/backend/executor"
 	"github.com/influxdata/influxdb/v2/task/backend/middleware"
 	"github.com/influxdata/influxdb/v2/task/backend/scheduler"
+	"github.com/influxdata/influxdb/v2/task/options"
 	"github.com/influxdata/influxdb/v2/task/taskmodel"
 	"go.uber.org/zap"
 	"verif/harness/rt"
@@ -57,7 +58,7 @@ func defsFor(variant int) map[int]schedDef {
 	case 1:
 		return map[int]schedDef{1: {cron: "* * * * *"}, 2: {cron: "*/2 * * * *"}, 3: {cron: "*/3 * * * *"}}
 	case 2: // only the offset differs
-		return map[int]schedDef{1: {every: "1m"}, 2: {every: "1m", offset: 20 * time.Second}, 3: {every: "1m", offset: 40 * time.Second}}
+		return map[int]schedDef{1: {every: "1m", offset: 10 * time.Second}, 2: {every: "1m", offset: 20 * time.Second}, 3: {every: "1m", offset: 40 * time.Second}}
 	default: // every vs cron with offsets
 		return map[int]schedDef{1: {every: "1h", offset: time.Minute}, 2: {cron: "0 */2 * * *", offset: time.Minute}, 3: {cron: "30 * * * *"}}
 	}
@@ -152,6 +153,50 @@ func (f *fakeTS) apply(t *taskmodel.Task, marker string) error {
 	return nil
 }
 
+// optionsFor expresses a schedule the way an API PATCH with only every/cron/offset does: TaskUpdate.Options.
+func optionsFor(d schedDef) (options.Options, error) {
+	var o options.Options
+	if d.cron != "" {
+		o.Cron = d.cron
+	}
+	if d.every != "" {
+		if err := o.Every.Parse(d.every); err != nil {
+			return o, err
+		}
+	}
+	if d.offset != 0 {
+		o.Offset = &options.Duration{}
+		if err := o.Offset.Parse(d.offset.String()); err != nil {
+			return o, err
+		}
+	}
+	return o, nil
+}
+
+// applyOptions does what the real task service does with TaskUpdate.Options (it re-renders the Flux script and reads the
+// options back; here the option fields are applied to the stored Every/Cron/Offset directly): every and cron replace
+// each other, an offset option replaces the offset, a schedule given without offset keeps none.
+func (f *fakeTS) applyOptions(t *taskmodel.Task, o options.Options) error {
+	if o.Cron != "" {
+		t.Cron, t.Every = o.Cron, ""
+	}
+	if !o.Every.IsZero() {
+		t.Every, t.Cron = o.Every.String(), ""
+	}
+	if o.Cron != "" || !o.Every.IsZero() {
+		t.Offset = 0
+	}
+	if o.Offset != nil && !o.Offset.IsZero() {
+		off, err := time.ParseDuration(o.Offset.String())
+		if err != nil {
+			return err
+		}
+		t.Offset = off
+	}
+	t.Flux = "options:" + t.Every + t.Cron
+	return nil
+}
+
 func clone(t *taskmodel.Task) *taskmodel.Task { c := *t; return &c }
 
 func (f *fakeTS) CreateTask(ctx context.Context, tc taskmodel.TaskCreate) (*taskmodel.Task, error) {
@@ -185,6 +230,11 @@ func (f *fakeTS) UpdateTask(ctx context.Context, id platform.ID, upd taskmodel.T
 	}
 	if upd.Flux != nil {
 		if err := f.apply(t, *upd.Flux); err != nil {
+			return nil, err
+		}
+	}
+	if !upd.Options.IsZero() {
+		if err := f.applyOptions(t, upd.Options); err != nil {
 			return nil, err
 		}
 	}
@@ -256,6 +306,7 @@ func runCase(c *coordCase, env *rt.Env) rt.Result {
 	slotID := map[int]platform.ID{}
 	nontrivial := false
 	evals := 0
+	viaOptions := 0
 	explicitActive := r.Intn(2) == 0 // "active" given explicitly or left to the store's default
 	for i, st := range c.Steps {
 		switch st.A {
@@ -283,8 +334,19 @@ func runCase(c *coordCase, env *rt.Env) rt.Result {
 				upd.Status = &s
 			}
 			if st.Sched != 0 {
-				f := fmt.Sprintf("sched:%d", st.Sched)
-				upd.Flux = &f
+				// a schedule change arrives either as a new script (Flux set) or, as for an API PATCH with only
+				// every/cron/offset, as option fields (Options set, Flux == nil); both forms occur with and without Status
+				if r.Intn(2) == 0 {
+					f := fmt.Sprintf("sched:%d", st.Sched)
+					upd.Flux = &f
+				} else {
+					o, err := optionsFor(defs[st.Sched])
+					if err != nil {
+						return rt.Infra("options: " + err.Error())
+					}
+					upd.Options = o
+					viaOptions++
+				}
 			}
 			if st.Status == "keep" && st.Sched == 0 {
 				d := fmt.Sprintf("renamed at step %d", i)
@@ -350,7 +412,7 @@ func runCase(c *coordCase, env *rt.Env) rt.Result {
 			}
 		}
 	}
-	return rt.Result{OK: true, Evals: evals, Nontrivial: nontrivial}
+	return rt.Result{OK: true, Evals: evals, Nontrivial: nontrivial, Extra: map[string]interface{}{"scheduleUpdatesViaOptions": viaOptions}}
 }
 
 func main() {
